@@ -46,7 +46,7 @@ SWEEPS = ["qcow2", "vmdk-sparse", "vhd-dynamic", "vhdx"]
 FAMILIES = [["qcow2", "qcow2-snapshot", "qcow2-backing"], ["vmdk-sparse", "vmdk-flat", "vmdk-multi"], ["vhd-fixed", "vhd-dynamic"],
             ["vdi", "vdi-child"], ["hds", "hds-child", "hdd-storage"], ["vhdx", "vhdx-diff"]]
 # classes whose images are handed over as file objects (the others are opened by path by the library itself)
-HANDLE_CLASSES = ["qcow2", "qcow2-snapshot", "qcow2-backing", "vmdk-sparse", "vmdk-stream", "vmdk-cowd", "vmdk-sesparse", "vmdk-flat", "vhd-fixed", "vhd-dynamic", "vdi",
+HANDLE_CLASSES = ["qcow2", "qcow2-snapshot", "qcow2-backing", "vmdk-sparse", "vmdk-stream", "vmdk-cowd", "vmdk-sesparse", "vdi-odd", "vmdk-flat", "vhd-fixed", "vhd-dynamic", "vdi",
                   "vdi-child", "hds", "hds-child"]
 
 
@@ -73,7 +73,7 @@ def shards(tier):
             for a, b in itertools.combinations(fam, 2):
                 out.append({"buf": buf, "kind": "xpair", "cls": a, "cls2": b, "depth": 2 if q else 3})
     for buf in ([8192] if q else [512, 8192]):
-        for cls in CLASSES + ["vmdk-stream", "vmdk-cowd", "vmdk-sesparse"]:
+        for cls in CLASSES + ["vmdk-stream", "vmdk-cowd", "vmdk-sesparse", "vdi-odd"]:
             if cls in HANDLE_CLASSES:
                 for hk in HANDLE_KINDS:
                     out.append({"buf": buf, "kind": "handles", "cls": cls, "handle": hk, "depth": 2})
@@ -313,6 +313,21 @@ def _build_image(cls, variant, buf):
         def make():
             return VDI(_bio(raw)), None, _noop
         return dict(make=make, disk=disk, unit=4096, sectors=False)
+    if cls == "vdi-odd":
+        # (handle shards only) 15 blocks of 1536 bytes: block and buffer borders never coincide, the file is longer than any
+        # read-ahead window a wrapper may keep
+        from dissect.hypervisor.disk.vdi import VDI
+
+        from mc.builders import vdi as B
+
+        st = _states5(variant, [HOLE, ZERO, DATA]) * 3
+        st = [DATA if (i % 4) else x for i, x in enumerate(st)]
+        raw = B.build(st, _perm_slots(st, variant), 1536, 15 * 1536 - 512, layer=lay).tobytes()
+        disk = B.model(st, 1536, 15 * 1536 - 512, layer=lay)
+
+        def make():
+            return VDI(_bio(raw)), None, _noop
+        return dict(make=make, disk=disk, unit=1536, sectors=False)
     if cls == "hds":
         from dissect.hypervisor.disk.hdd import HDS
 
@@ -391,7 +406,9 @@ def _bio(raw):
 
     kind = _handle["kind"]
     if kind is None:
-        return TrapBytesIO(raw)
+        fh = TrapBytesIO(raw)
+        _CUR["bio"] = fh
+        return fh
     import bz2
     import gzip
     import io
@@ -428,6 +445,7 @@ def _bio(raw):
     else:
         raise ValueError(kind)
     _handle["opened"].append(fh)
+    _CUR["bio"] = fh
     return fh
 
 
@@ -458,6 +476,8 @@ def alphabet(S, A, unit, sectors, lean=False):
     ops += [("readinto", n) for n in ((A + 1,) if lean else (1, A + 1))]
     ops += [("peek", n) for n in ((1,) if lean else (1, A + 1))]
     ops += [("readoffset", p, n) for p, n in (((A - 1, 2),) if lean else ((0, 1), (A - 1, 2), (S - 1, 5), (u - 1, 3)))]
+    if lean:
+        ops.append(("sibling", "keep"))
     if not lean:
         ops.append(("tell",))
         ops.append(("disturb", 4096 + 123, 1000))
@@ -468,7 +488,9 @@ def alphabet(S, A, unit, sectors, lean=False):
         # a second, short-lived object over the same handle / parent object is created, used and dropped (garbage collected):
         # the caller's handles and the parent stay open and usable
         ops.append(("sibling",))
+        ops.append(("sibling", "keep"))
     if sectors and not lean:
+        ops.append(("fail_sectors", 0, 70000))
         # a request that cannot be served (runs far past the end of the disk): whatever it does -- raise or return short --
         # later operations must not be affected by it
         ops.append(("fail_sectors", max(0, S // 512 - 1), 70000))
@@ -517,8 +539,12 @@ def _apply_impl(stream, reader, op):
         sib = None
         try:
             fh = getattr(stream, "fh", None)
+            if _CUR.get("single") and _CUR.get("bio") is not None and fh is not None:
+                fh = _CUR["bio"]  # the object the caller handed in (the library may have wrapped it)
             cls_ = type(stream)
             name = cls_.__name__
+            if fh is not None and hasattr(fh, "seek"):
+                fh.seek(0)  # the caller rewinds the handle before handing it to a second object
             if name == "QCow2":
                 kw = {}
                 if getattr(stream, "backing_file", None) is not None:
@@ -532,11 +558,18 @@ def _apply_impl(stream, reader, op):
                 sib = cls_(fh)
             elif name == "VMDK" and len(getattr(stream, "disks", [])) == 1 and hasattr(stream.disks[0], "fh") and stream.parent is None:
                 sib = cls_(stream.disks[0].fh)
+            elif name == "VHDX" and getattr(stream, "parent", None) is None:
+                fh.seek(0)
+                sib = cls_(fh)
             if sib is not None:
                 sib.seek(0)
                 sib.read(1)
         except Exception:
             pass
+        if len(op) > 1 and op[1] == "keep" and sib is not None:
+            # the second object stays alive and reads a little before every later operation of the first one
+            _SIBS[id(stream)] = [sib, 0]
+            return None
         del sib
         gc.collect()
         return None
@@ -596,10 +629,24 @@ def _apply_model(m, op):
 DATA_OPS = ("read", "readinto", "peek", "readoffset", "read_sectors")
 
 
+_SIBS = {}
+_CUR = {}
+
+
 def _step(ctx, case, streams, readers, models, op, idx, subject):
     """Execute one operation on instance `idx`, compare with the model.  Returns True when it agrees."""
     ctx.transitions += 1
     exp = _apply_model(models[idx], op)
+    live = _SIBS.get(id(streams[idx]))
+    if live is not None and op[0] != "sibling":
+        try:
+            live[1] += 1
+            size_ = max(1, models[idx].disk.size)
+            for at_ in (max(0, size_ - 800 * live[1]), (live[1] * 5003) % size_, size_ // 2):
+                live[0].seek(at_)
+                live[0].read(777)
+        except Exception:
+            pass
     try:
         got = _apply_impl(streams[idx], readers[idx], op)
     except ValueError as e:
@@ -735,6 +782,9 @@ def _run_ops(case, ctx, buf, kind, cls, ops):
 
 
 def _run_ops2(case, ctx, buf, kind, cls, ops):
+    _SIBS.clear()
+    _CUR.clear()
+    _CUR["single"] = kind == "single"
     with ctx.watch(case):
         if kind == "single":
             im = _image(cls, 0, buf)
